@@ -4,9 +4,9 @@ func init() {
 	register(Harness{
 		Prop: "C04", Pkg: "policy", Func: "VerifC04FixedPoint",
 		Quick:    grid(rng(1, 3), rng(0, 6)),
-		Thorough: grid(rng(1, 3), rng(0, 12)),
-		Desc:     "NewRecipient(addr) accepted => mailbox non-empty, equals ExtractMailbox(addr), and is a fixed point of ExtractMailbox",
-		Bounds:   "params (naming mode 1=local 2=full 3=domain, exact address length n); every byte value at every position",
+		Thorough: grid(rng(1, 3), rng(0, 12)), QTThorough: 400,
+		Desc:   "NewRecipient(addr) accepted => mailbox non-empty, equals ExtractMailbox(addr), and is a fixed point of ExtractMailbox",
+		Bounds: "params (naming mode 1=local 2=full 3=domain, exact address length n); every byte value at every position",
 	}, Harness{
 		Prop: "C04", Pkg: "policy", Func: "VerifC04Case",
 		Quick:    grid(rng(1, 3), rng(1, 5)),
@@ -23,8 +23,8 @@ func init() {
 	}, Harness{
 		Prop: "C04", Pkg: "policy", Func: "VerifC04Rcpt",
 		Quick:    grid(rng(1, 3), rng(0, 6)),
-		Thorough: grid(rng(1, 3), rng(0, 11)),
-		Desc:     "raw RCPT argument -> handler trimming -> NewRecipient: accepted => non-empty fixed point",
-		Bounds:   "params (mode, exact length of the text after 'TO:'); all byte values",
+		Thorough: grid(rng(1, 3), rng(0, 11)), QTThorough: 400,
+		Desc:   "raw RCPT argument -> handler trimming -> NewRecipient: accepted => non-empty fixed point",
+		Bounds: "params (mode, exact length of the text after 'TO:'); all byte values",
 	})
 }
